@@ -245,7 +245,7 @@ every instruction, every fuel, every state, every outcome) leaves the scope stac
 set aside at its entry set aside, in place. -/
 theorem vm_suspended_kept (base : Susp) (fuel : Nat) : AllKeeps base fuel := allKeeps base fuel
 
-/-- **vm_instr_effect** — the stack effect of each of the 24 instructions of the real
+/-- **vm_instr_effect** — the stack effect of each of the 25 instructions of the real
 instruction set that do not re-enter the VM, for every state and every outcome: at most
 `needD` data cells, `needL` scopes, `needA` return addresses of what was there are removed. -/
 theorem vm_instr_effect (f : Nat) (i : Instr) (s : St) (hs : simple i = true) :
